@@ -257,6 +257,51 @@ pub fn run_c14_aml(cfg: &Cfg) -> Report {
         });
     });
     rep.rule("AML half: random term trees, each real object serialised twice and into six sink kinds");
+    // the error-record objects of hest.rs (serialised field by field through word/dword/byte/slice calls)
+    rep.merge(par_cases(cfg, "hest.error_records", cfg.scaled(if thorough { 200_000 } else { 8_000 }), |cx| {
+        let mut r = cx.rng.clone();
+        cx.eval();
+        let check = |cx: &mut CaseCtx, what: &str, o: &dyn acpi_tables::Aml, desc: String| {
+            let first = to_vec(o);
+            let second = to_vec(o);
+            cx.obs();
+            if first != second {
+                cx.violation(format!("two serialisations of the same {} differ", what), obj(vec![("value", desc.into())]));
+                return;
+            }
+            if acpi_tables::u8sum(o) != sum8(&first) {
+                cx.violation(format!("u8sum() of a {} differs from the arithmetic sum of its bytes", what), obj(vec![("value", desc.into())]));
+                return;
+            }
+            let s = observe_all_sinks(o);
+            for (name, b) in [("Vec<u8>", &s.vec), ("ByteOnly", &s.byte_only), ("Full", &s.full), ("Sdt", &s.sdt_tail), ("PackageBuilder", &s.pkg_tail)] {
+                if b != &first {
+                    let i = b.iter().zip(first.iter()).position(|(x, y)| x != y).unwrap_or(b.len().min(first.len()));
+                    cx.violation(format!("{} delivered to sink {} differs at byte {} ({} vs {} bytes)", what, name, i, b.len(), first.len()), obj(vec![("value", desc.into())]));
+                    return;
+                }
+            }
+            if s.checksum_raw != sum8(&first) {
+                cx.violation(format!("Checksum sink disagrees with the arithmetic sum of a {}", what), obj(vec![("value", desc.into())]));
+                return;
+            }
+            if s.sdt_sum != 0 || s.sdt_len_field as usize != s.sdt_total {
+                cx.violation(format!("generic table used as a sink for a {} ends with a bad checksum or Length", what), obj(vec![("value", desc.into())]));
+                return;
+            }
+            cx.rep.cov(&format!("error_record:{}", what));
+            cx.rep.distinct(&hash_bytes(&first));
+        };
+        if cx.idx % 4 == 0 {
+            let (c, u, sev) = (r.u32b(), r.u32b(), r.below(4) as u8);
+            let o = acpi_tables::hest::GenericErrorStatus::new(c, u, crate::tables::real::error_severity(sev));
+            check(cx, "hest::GenericErrorStatus", &o, format!("{} {} {}", c, u, sev));
+        } else {
+            let a = crate::tables::gen::gen_error_data(&mut r);
+            let o = crate::tables::real::build_error_data(&a);
+            check(cx, "hest::GenericErrorData", &o, format!("{:?}", a));
+        }
+    }));
     rep.merge(run_c14_raw_forms(cfg));
     rep
 }
